@@ -128,17 +128,8 @@ theorem hlEnv_d_closed (hg : PrimeGenSpec primesRange) (i : HlIn) (hD : i.isD = 
 
 /-! non-vacuity (these are tests, labelled as such) -/
 
-/-- a generator meeting `PrimeGenSpec` that the kernel can run -/
-def exGen : PrimeGen := fun lo hi => (List.range' lo (hi - lo)).filter (fun q => decide q.Prime)
-
-theorem exGen_spec : PrimeGenSpec exGen := by
-  intro lo hi
-  unfold exGen
-  refine ⟨List.Pairwise.filter _ List.pairwise_lt_range', fun q => ?_⟩
-  simp only [List.mem_filter, List.mem_range'_1, decide_eq_true_eq]
-  constructor
-  · rintro ⟨⟨h1, h2⟩, h3⟩; exact ⟨h1, by omega, h3⟩
-  · rintro ⟨h1, h2, h3⟩; exact ⟨⟨h1, by omega⟩, h3⟩
+/-- the generator hypothesis is met by a generator the kernel can run (`exGen`, PcProofs/CloseTablesGen.lean) -/
+example : PrimeGenSpec exGen := exGen_spec
 
 /-- the `PhiCache` hypothesis is met by the driver's executable φ over the oracle table (levels up to `π(n)`) … -/
 example (n : ℕ) : PhiNegSpec (fun y b => - hlPhiOf (NT.build n) y b) (Nat.primeCounting n) :=
